@@ -772,6 +772,18 @@ def run_task(task):
     return out
 
 
+def _worker_init():
+    """a pool worker must not inherit the runner's clean-up: its SIGTERM handler kills the solver
+    processes the runner has started (the handler and the list of live children are copied by
+    fork, and closing the pool sends SIGTERM to the workers)"""
+    import signal
+    signal.signal(signal.SIGTERM, signal.SIG_DFL)
+    signal.signal(signal.SIGINT, signal.SIG_DFL)
+    c = sys.modules.get('vlib.common')
+    if c is not None:
+        c._LIVE.clear()
+
+
 def run_all(mir_path, repo, methods=METHODS, jobs=None):
     import multiprocessing as mp
     Layout(repo)  # layout problems surface here, once
@@ -780,7 +792,7 @@ def run_all(mir_path, repo, methods=METHODS, jobs=None):
     t_start = time.time()
     tasks = [(mir_path, repo, m, shape) for m in methods for shape in itertools.product([False, True], repeat=NCL)]
     jobs = jobs or min(12, os.cpu_count() or 4)
-    with mp.get_context('fork').Pool(jobs) as pool:
+    with mp.get_context('fork').Pool(jobs, initializer=_worker_init) as pool:
         outs = pool.map(run_task, tasks, chunksize=1)
     classes = {}
     for o in outs:
